@@ -186,6 +186,7 @@ package lexer
 
 //@ func (l *Lexer) readString
 //@   requires LexInv(l) && l.char != 0
+//@   goal terminated: byteAt(l.input, l.pos-1) == old(int(l.char)) && l.pos <= len(l.input)
 //@   ensures LexInv(l) && l.pos > old(l.pos)+1 && l.startPos == old(l.pos)
 //@   modifies @POS, @START
 //@   loop 0: invariant LexInv(l) && l.startPos == old(l.pos) && l.pos > old(l.pos) && l.pos <= len(l.input)
